@@ -14,10 +14,10 @@ import (
 	"bytes"
 	"fmt"
 	"io"
-	"sort"
-	"sync"
 	"runtime"
 	"runtime/debug"
+	"sort"
+	"sync"
 	"sync/atomic"
 	"testing"
 
@@ -43,13 +43,14 @@ type c30Spec struct {
 func (s c30Spec) size() int { return packetHeaderSize + s.PLen + packetFooterSize + s.ELen }
 
 type c30Case struct {
-	Pkts    []c30Spec `json:"pkts"`
-	Cuts    []int     `json:"cuts,omitempty"`    // absolute offsets a Read never crosses
-	Uniform int       `json:"uniform,omitempty"` // additionally cut at every multiple of Uniform
-	EOFData bool      `json:"eof_with_data,omitempty"`
-	CorOff  int       `json:"corrupt_off"` // -1: none
-	CorXor  byte      `json:"corrupt_xor,omitempty"`
-	Family  string    `json:"family"`
+	Pkts    []c30Spec    `json:"pkts"`
+	Cuts    []int        `json:"cuts,omitempty"`    // absolute offsets a Read never crosses
+	Uniform int          `json:"uniform,omitempty"` // additionally cut at every multiple of Uniform
+	EOFData bool         `json:"eof_with_data,omitempty"`
+	CorOff  int          `json:"corrupt_off"` // -1: none
+	CorXor  byte         `json:"corrupt_xor,omitempty"`
+	Family  string       `json:"family"`
+	Hist    *c30HistCase `json:"hist,omitempty"` // family "history" (c30_hist_test.go)
 }
 
 var c30SrcIDs = [][]byte{
@@ -442,7 +443,7 @@ type c30Level struct {
 	corruptStep int
 	xors        []byte // substitution masks (default 0x01, 0x80, 0xff)
 	edge        int    // payload edge window for corrupt levels without every offset (default 12)
-	part, parts int // this job runs the cases whose running index = part (mod parts)
+	part, parts int    // this job runs the cases whose running index = part (mod parts)
 }
 
 func c30Range(n int) []int {
@@ -687,6 +688,13 @@ func TestVerifC30(t *testing.T) {
 	if ev.Replaying() {
 		var c c30Case
 		ev.ReplayCase(&c)
+		if c.Hist != nil {
+			r.Eval(1)
+			c30HistRun(r, &c30HistStats{}, c.Hist)
+			r.Sample(c)
+			r.Finish(false)
+			return
+		}
 		c30RunCase(r, st, &c)
 		r.Sample(c)
 		r.Finish(false)
@@ -706,7 +714,10 @@ func TestVerifC30(t *testing.T) {
 		"Every stream: all-at-once with EOF delivered separately and together with the last bytes, relay (re-serialise what was read). " +
 		"Families: uniform = cut at every multiple of k; cuts<=2 = every chunking with at most 2 cuts at every byte offset (streams <= 200 bytes); " +
 		"boundary-cut1/2 (longer streams) = every single cut within +-w bytes of every header/payload/footer/ext boundary, every cut pair from the same or adjacent boundary windows; " +
-		"corrupt = one byte xor {0x01,0x80,0xff}: header or payload byte => that packet must be rejected and earlier packets delivered intact; footer/ext bytes => no panic, earlier packets intact. "
+		"corrupt = one byte xor {0x01,0x80,0xff}: header or payload byte => that packet must be rejected and earlier packets delivered intact; footer/ext bytes => no panic, earlier packets intact. " +
+		"history = ONE PacketReader over all ordered pairs/triples of a 6-packet corpus (payload 0,1,2,100,1024,5000; with/without extension) where every position is intact or damaged (12 framing-preserving classes: protocol, subProtocol, src first/last, dest, ttl, payload first/last, hash first/last, ext first/last; xor 0x01/0x80; triples xor 0x80, quick triples over 4 corpus packets), reading on after every rejection: decision and decoded fields equal those of a fresh PacketReader on the same bytes, intact packets equal what was written; " +
+		"Reset = the reader fails on packet k (all 12 classes + 4 length bytes + 2 extend-info bytes + 6 truncation points + clean EOF) and is Reset() onto a new stream holding the remaining packets, which must decode cleanly; both under all-at-once and uniform-7 chunking; " +
+		"writer = one PacketWriter whose io.Writer fails at its 0..3rd call (completely / after half the bytes / never), then Reset() onto a good writer (the rest must arrive byte-exact) or no Reset (further writes must fail, bytes on the wire stay a prefix); the same *Packet written twice. "
 	if quick {
 		r.Rule(common + "QUICK: A: payloadLen{0,1,2,1023,1024}; <=200B: cuts<=1, uniform 1..64, corrupt every offset; longer: uniform{1,7,64}, cut1 w=4, corrupt header+12-byte payload edges+footer. " +
 			"B singles: uniform 1..64, cuts<=2 or cut1/cut2 w=12, corrupt every header/payload offset (stride 97 above 2048 B); max payload: uniform{1,64}, cut1 w=4, corrupt xor 0x80 at header, 2-byte edges, stride 131101. " +
@@ -865,6 +876,9 @@ func TestVerifC30(t *testing.T) {
 		return true
 	})
 
+	// reader/writer history family first (cheap; c30_hist_test.go)
+	histOK := c30HistTier(r, &c30HistStats{})
+
 	var incomplete int64
 	ev.Par(len(jobs), 16, func(i int) {
 		if r.Expired() {
@@ -904,5 +918,5 @@ func TestVerifC30(t *testing.T) {
 	r.Sanity(st.tolerated > 0, "no corruption of an unhashed region was ever tolerated (oracle regions suspicious)")
 	r.Sanity(st.maxReads > 1000, "chunker never produced many reads")
 	r.Sanity(st.chunkRuns > 1000, "too few chunking runs")
-	r.Finish(incomplete == 0)
+	r.Finish(incomplete == 0 && histOK)
 }
